@@ -72,9 +72,9 @@ theorem ok_ofForest (F : Forest H) (hn : F.numLeaves < 2 ^ 64) (hy : Hyg F) : OK
   · rw [leaves_ofForest F hn]; exact hy.nph
 
 /-- the laws of the node list of a specification forest -/
-theorem laws_forest (cr : CR H) (F : Forest H) (hn : F.numLeaves < 2 ^ 64) (hy : Hyg F) :
+theorem laws_forest (nz : NZ H) (F : Forest H) (hn : F.numLeaves < 2 ^ 64) (hy : Hyg F) :
     Laws F.nodes (FRoot F) := by
-  have := laws_of_ok cr (ok_ofForest F hn hy)
+  have := laws_of_ok nz (ok_ofForest F hn hy)
   rw [nodes_ofForest] at this
   have e : IsRoot (ofForest F) = FRoot F := by
     funext q; exact propext (isRoot_ofForest F hn q)
@@ -82,7 +82,7 @@ theorem laws_forest (cr : CR H) (F : Forest H) (hn : F.numLeaves < 2 ^ 64) (hy :
   exact this
 
 /-- `posOf` is membership of a leaf entry -/
-theorem posOf_iff (F : Forest H) (hn : F.numLeaves < 2 ^ 64) (hy : Hyg F) (cr : CR H) {x : H} {t : Pos} :
+theorem posOf_iff (F : Forest H) (hn : F.numLeaves < 2 ^ 64) (hy : Hyg F) (nz : NZ H) {x : H} {t : Pos} :
     F.posOf x = some t ↔ (t, x, true) ∈ F.nodes := by
   constructor
   · exact posOf_mem
@@ -100,7 +100,7 @@ theorem posOf_iff (F : Forest H) (hn : F.numLeaves < 2 ^ 64) (hy : Hyg F) (cr : 
       simp only at hp
       obtain ⟨hd, hc⟩ := hp
       subst hd hc
-      have := (laws_forest cr F hn hy).leaf_hash t c (a, b) true hm hmem
+      have := (laws_forest nz F hn hy).leaf_hash t c (a, b) true hm hmem
       simp only [Option.map_some, Option.some.injEq]
       exact this
 
